@@ -392,9 +392,28 @@ def check_sld(ctx: Ctx, inp: dict) -> None:
     req = (f"F sld {adj_tokens(spec._adj)} {vec(spec._mass)} {f2hex(W)} {f2hex(H)} {vec(init[0])} {vec(init[1])} "
            f"{bools(fixed)} {vec(p.rec.draws)} 10000")
     ctx.case("sld", req, True)
-    rep = ctx.model([req])
-    if rep is None:
+    idx = {m.name: i for i, m in enumerate(spec.modules)}
+    net_t = [str(len(spec.edges))]
+    for e in spec.edges:
+        net_t += [str(len(e.modules))] + [str(idx[b.name]) for b in e.modules] + [f2hex(e.weight)]
+    rep2 = ctx.model([req, f"F adj {len(spec.modules)} " + " ".join(net_t)])
+    if rep2 is None:
         return
+    rep = rep2[:1]
+    # _build_graph (clique model): adjacency lists entry by entry
+    impl_adj = " | ".join(" ".join(f"{e.node} {f2hex(e.weight)}" for e in es) for es in spec._adj)
+    ctx.case("adj", impl_adj, True)
+    if rep2[1] != impl_adj:
+        ma = [[(int(t[i]), hex2f(t[i + 1])) for i in range(0, len(t), 2)] for t in (part.split() for part in rep2[1].split(" | "))] \
+            if not rep2[1].startswith("err") else None
+        ia = [[(e.node, e.weight) for e in es] for es in spec._adj]
+        same = ma is not None and len(ma) == len(ia) and all(
+            len(a) == len(b) and all(x[0] == y[0] and abs(x[1] - y[1]) <= 1e-12 * max(1.0, abs(y[1])) for x, y in zip(a, b))
+            for a, b in zip(ma, ia))
+        if same:
+            ctx.drift += 1
+        else:
+            ctx.disagree("adj", inp, str(ia)[:300], rep2[1][:300], size=n)
     if impl is not None or rep[0].startswith("err"):
         if rep[0] != impl:
             ctx.disagree("sld", inp, impl or "returned", rep[0][:200], size=n)
